@@ -204,14 +204,14 @@ func runC12(c *Ctx) {
 	c.Rule("C12-R6", "signed content is immutable after construction; codecs cover every field", func() {
 		// stores to Transaction.data fields
 		allowed := map[string]string{
-			"core/types.newTransaction":                   "constructor (fresh transaction)",
-			"(*core/types.Transaction).WithSignature":     "writes R,S,V on a copy",
-			"(*core/types.Transaction).DecodeRLP":         "decoder",
-			"(*core/types.Transaction).UnmarshalJSON":     "decoder (whole-value assignment)",
-			"(*core/types.txdata).UnmarshalJSON":          "generated JSON decoder",
-			"(*core/types.Transaction).Hash":              "hash cache (not signed content)",
-			"(*core/types.Transaction).Size":              "size cache",
-			"core/types.Sender":                           "sender cache",
+			"core/types.newTransaction":               "constructor (fresh transaction)",
+			"(*core/types.Transaction).WithSignature": "writes R,S,V on a copy",
+			"(*core/types.Transaction).DecodeRLP":     "decoder",
+			"(*core/types.Transaction).UnmarshalJSON": "decoder (whole-value assignment)",
+			"(*core/types.txdata).UnmarshalJSON":      "generated JSON decoder",
+			"(*core/types.Transaction).Hash":          "hash cache (not signed content)",
+			"(*core/types.Transaction).Size":          "size cache",
+			"core/types.Sender":                       "sender cache",
 		}
 		tdNamed := c.Type("core/types:txdata")
 		txNamed := c.Type("core/types:Transaction")
@@ -267,24 +267,25 @@ func runC12(c *Ctx) {
 					if f == nil || f.Signature.Recv() == nil || !strings.HasSuffix(f.Signature.Recv().Type().String(), "big.Int") || !bigMutators[f.Name()] {
 						continue
 					}
-					root := bigRootAll(call.Call.Args[0], 0)
-					if u, ok := root.(*ssa.UnOp); ok {
-						if fa, ok := u.X.(*ssa.FieldAddr); ok {
-							pt := fa.X.Type().Underlying().(*types.Pointer).Elem()
-							base := fa.X
-							for i := 0; i < 4; i++ {
-								if f2, ok := base.(*ssa.FieldAddr); ok {
-									base = f2.X
-									continue
+					for _, root := range bigRoots(call.Call.Args[0]) {
+						if u, ok := root.(*ssa.UnOp); ok {
+							if fa, ok := u.X.(*ssa.FieldAddr); ok {
+								pt := fa.X.Type().Underlying().(*types.Pointer).Elem()
+								base := fa.X
+								for i := 0; i < 4; i++ {
+									if f2, ok := base.(*ssa.FieldAddr); ok {
+										base = f2.X
+										continue
+									}
+									break
 								}
-								break
-							}
-							if _, isLocal := base.(*ssa.Alloc); isLocal {
-								continue // initialising a value under construction
-							}
-							if types.Identical(pt, tdNamed) {
-								bad++
-								c.Ob("C12-R6", shortFn(fn)+": in-place big.Int."+f.Name()+" on txdata."+fieldName(fa), c.Position(call.Pos()), false, "mutates signed content")
+								if _, isLocal := base.(*ssa.Alloc); isLocal {
+									continue // initialising a value under construction
+								}
+								if types.Identical(pt, tdNamed) {
+									bad++
+									c.Ob("C12-R6", shortFn(fn)+": in-place big.Int."+f.Name()+" on txdata."+fieldName(fa), c.Position(call.Pos()), false, "mutates signed content")
+								}
 							}
 						}
 					}
@@ -326,10 +327,11 @@ func runC12(c *Ctx) {
 					if f == nil || f.Signature.Recv() == nil || !strings.HasSuffix(f.Signature.Recv().Type().String(), "big.Int") || !bigMutators[f.Name()] {
 						continue
 					}
-					root := bigRootAll(call.Call.Args[0], 0)
-					if ex, ok := root.(*ssa.Extract); ok {
-						if rc, ok := ex.Tuple.(*ssa.Call); ok && rc.Call.StaticCallee() == rsv {
-							mut = true
+					for _, root := range bigRoots(call.Call.Args[0]) {
+						if ex, ok := root.(*ssa.Extract); ok {
+							if rc, ok := ex.Tuple.(*ssa.Call); ok && rc.Call.StaticCallee() == rsv {
+								mut = true
+							}
 						}
 					}
 				}
